@@ -590,6 +590,8 @@ def regline_of(ops):
 
 
 REG_CORPUS = [
+    # repaired defect (/repo 13d6c66): `a -= a` / `a += a` iterated over the list being mutated
+    [("set", 0, [(0, 1), (2, 1), (4, 1), (6, 1)]), ("copy", 1, 0), ("isub", 0, 0), ("len", 0), ("iadd", 1, 1), ("len", 1), ("c", 1, 2, 1)],
     # r2 = r0 - (empty); r2.add(...) must not change r0  (seeded change C37-b: __sub__ returning self)
     [("set", 0, [(0, 4), (6, 4)]), ("sub", 2, 0, 1), ("add", 2, 20, 2), ("c", 0, 20, 1), ("len", 0)],
     # r2 = r0 & superset: bounds - other is empty, so the outer __sub__ has an empty right operand
@@ -603,8 +605,9 @@ def self_operand_probe(ctx):
     """`a -= a` and `a += a` (the right operand is the object being mutated): directed monitor probe (the
     named-value histories also generate them and compare with the model)."""
     from allmydata.util.spans import Spans
-    for _ in range(20):
-        pairs = gen_pairs(ctx.rng, 60) + [(100, 1), (102, 1), (104, 1)]
+    fixed = [[(0, 1), (2, 1), (4, 1), (6, 1)], [(5, 3), (10, 2)]]
+    for n in range(len(fixed) + (0 if corpus_only() else 20)):
+        pairs = fixed[n] if n < len(fixed) else gen_pairs(ctx.rng, 60) + [(100, 1), (102, 1), (104, 1)]
         want = set_of(pairs)
         a = Spans(pairs); a -= a
         ctx.case(("P", "isub-self", repr(pairs)))
@@ -665,6 +668,12 @@ def pick_base(ctx):
     ctx.count("offset-base:2^64"); return 2 ** 64 - 150
 
 
+def corpus_only():
+    """VERIF_CORPUS_ONLY=1: run only the fixed corpus (one minimal history per known mechanism), no random families."""
+    import os
+    return os.environ.get("VERIF_CORPUS_ONLY", "") not in ("", "0")
+
+
 def guarded(ctx, fn, kind, ops):
     """An exception out of the real code (e.g. its own _check / assert_invariants firing on valid arguments) breaks the
     statement: a set / a partial map accepts every such operation."""
@@ -688,13 +697,17 @@ def run(ctx):
         shists = [list(h) for h in SPANS_CORPUS]
         dhists = [list(h) for h in DSPANS_CORPUS]
         rhists = [list(h) for h in REG_CORPUS]
+        nrand = 0 if corpus_only() else 1
+        if corpus_only():
+            ctx.note("VERIF_CORPUS_ONLY: fixed corpus only (%d Spans, %d DataSpans, %d named-value histories + self-operand probe)"
+                     % (len(shists), len(dhists), len(rhists)))
         lens = [5, 20, 60, 200] if ctx.tier != "thorough" else [5, 20, 60, 200, 600]
         offs = [20, 60, 300] if ctx.tier != "thorough" else [12, 20, 60, 300, 1000]
-        for i in range(ctx.budget(400, 3000)):
+        for i in range(nrand * ctx.budget(400, 3000)):
             shists.append(gen_history(ctx.rng, ctx.rng.choice(lens), ctx.rng.choice(offs), pick_base(ctx)))
-        for i in range(ctx.budget(400, 3000)):
+        for i in range(nrand * ctx.budget(400, 3000)):
             dhists.append(gen_dhistory(ctx.rng, ctx.rng.choice(lens), ctx.rng.choice(offs), pick_base(ctx)))
-        for i in range(ctx.budget(300, 3000)):
+        for i in range(nrand * ctx.budget(300, 3000)):
             rhists.append(gen_reg_history(ctx.rng, ctx.rng.choice([8, 15, 40, 100]), ctx.rng.choice([20, 60, 300]), pick_base(ctx)))
         self_operand_probe(ctx)
     simpl = [guarded(ctx, run_impl, "spans", h) for h in shists]
